@@ -84,6 +84,39 @@ Segs observe(const UndirectedWeightedGraph &g) {
     return S;
 }
 
+Obs query(const DirectedMultigraph &g, unsigned v) {
+    Obs q;
+    q.push_back(guard([&] { return (Z)g.hasEdge(v, 0); })); q.push_back(guard([&] { return (Z)g.hasEdge(0, v); }));
+    q.push_back(guard([&] { return (Z)g.getOutNeighbours(v).size(); }));
+    q.push_back(guard([&] { return (Z)g.getEdgeMultiplicity(v, 0); })); q.push_back(guard([&] { return (Z)g.getEdgeMultiplicity(0, v); }));
+    q.push_back(guard([&] { return (Z)g.getOutDegree(v); })); q.push_back(guard([&] { return (Z)g.getInDegree(v); }));
+    return q;
+}
+Obs query(const UndirectedMultigraph &g, unsigned v) {
+    Obs q;
+    q.push_back(guard([&] { return (Z)g.hasEdge(v, 0); })); q.push_back(guard([&] { return (Z)g.hasEdge(0, v); }));
+    q.push_back(guard([&] { return (Z)g.getOutNeighbours(v).size(); }));
+    q.push_back(guard([&] { return (Z)g.getEdgeMultiplicity(v, 0); })); q.push_back(guard([&] { return (Z)g.getEdgeMultiplicity(0, v); }));
+    q.push_back(guard([&] { return (Z)g.getDegree(v, true); })); q.push_back(guard([&] { return (Z)g.getDegree(v, false); }));
+    return q;
+}
+Obs query(const DirectedWeightedGraph &g, unsigned v) {
+    Obs q;
+    q.push_back(guard([&] { return (Z)g.hasEdge(v, 0); })); q.push_back(guard([&] { return (Z)g.hasEdge(0, v); }));
+    q.push_back(guard([&] { return (Z)g.getOutNeighbours(v).size(); }));
+    q.push_back(guard([&] { return wcode(g.getEdgeWeight(v, 0, false)); })); q.push_back(guard([&] { return wcode(g.getEdgeWeight(0, v, true)); }));
+    q.push_back(guard([&] { return (Z)g.getOutDegree(v); })); q.push_back(guard([&] { return (Z)g.getInDegree(v); }));
+    return q;
+}
+Obs query(const UndirectedWeightedGraph &g, unsigned v) {
+    Obs q;
+    q.push_back(guard([&] { return (Z)g.hasEdge(v, 0); })); q.push_back(guard([&] { return (Z)g.hasEdge(0, v); }));
+    q.push_back(guard([&] { return (Z)g.getOutNeighbours(v).size(); }));
+    q.push_back(guard([&] { return wcode(g.getEdgeWeight(v, 0, false)); })); q.push_back(guard([&] { return wcode(g.getEdgeWeight(0, v, true)); }));
+    q.push_back(guard([&] { return (Z)g.getDegree(v, true); })); q.push_back(guard([&] { return (Z)g.getDegree(v, false); }));
+    return q;
+}
+
 template <class G> void recip(G &g, long i, long j, bool f, std::true_type) { g.addReciprocalEdge(i, j, f); }
 template <class G> void recip(G &g, long i, long j, bool f, std::false_type) { g.addEdge(i, j, f); }
 template <class G> void recipM(G &g, long i, long j, unsigned k, bool f, std::true_type) { g.addReciprocalMultiedge(i, j, k, f); }
@@ -93,6 +126,7 @@ template <class G, class IsDir> void runMulti(size_t n0, const std::vector<std::
     G g(n0);
     for (auto &op : ops) {
         std::istringstream is(op); std::string k; is >> k; long i = 0, j = 0, m = 0, f = 0;
+        if (k == "Q") { is >> i; Segs o = observe(g); o.insert(o.begin(), Obs{0}); o.push_back(query(g, (unsigned)i)); emit("I", o); continue; }
         Z r = guard([&]() -> Z {
             if (k == "A") { is >> i >> j >> f; g.addEdge(i, j, (bool)f); }
             else if (k == "AR") { is >> i >> j >> f; recip(g, i, j, (bool)f, IsDir()); }
@@ -108,13 +142,14 @@ template <class G, class IsDir> void runMulti(size_t n0, const std::vector<std::
             else if (k == "DD") g.removeDuplicateEdges();
             else throw std::logic_error("unknown op " + k);
             return 0; });
-        Segs o = observe(g); o.insert(o.begin(), Obs{r}); emit("I", o);
+        Segs o = observe(g); o.insert(o.begin(), Obs{r}); o.push_back(Obs{}); emit("I", o);
     }
 }
 template <class G> void runWeighted(size_t n0, const std::vector<std::string> &ops) {
     G g(n0);
     for (auto &op : ops) {
         std::istringstream is(op); std::string k; is >> k; long i = 0, j = 0, w = 0, f = 0;
+        if (k == "Q") { is >> i; Segs o = observe(g); o.insert(o.begin(), Obs{0}); o.push_back(query(g, (unsigned)i)); emit("I", o); continue; }
         Z r = guard([&]() -> Z {
             if (k == "WA") { is >> i >> j >> w >> f; g.addEdge(i, j, w / 4.0, (bool)f); }
             else if (k == "R") { is >> i >> j; g.removeEdge(i, j); }
@@ -126,7 +161,7 @@ template <class G> void runWeighted(size_t n0, const std::vector<std::string> &o
             else if (k == "DD") g.removeDuplicateEdges();
             else throw std::logic_error("unknown op " + k);
             return 0; });
-        Segs o = observe(g); o.insert(o.begin(), Obs{r}); emit("I", o);
+        Segs o = observe(g); o.insert(o.begin(), Obs{r}); o.push_back(Obs{}); emit("I", o);
     }
 }
 int main() {
